@@ -110,6 +110,16 @@ def handle : Handler := fun op inp =>
       let m := mergeSparse ((chunksOf nPer rows).map lookupToSparse)
       return jObj [("direct", jPair jNats jNats d), ("merged", jPair jNats jNats m),
                    ("chunks", jNat (chunksOf nPer rows).length)]
+  | "refmarkers.ttnu" => some do
+      let m1 ← ratList (← field inp "m1")
+      let v1 ← ratList (← field inp "v1")
+      let m2 ← ratList (← field inp "m2")
+      let v2 ← ratList (← field inp "v2")
+      let n1 ← asNat (← field inp "n1")
+      let n2 ← asNat (← field inp "n2")
+      let rows := List.zip (List.zip m1 v1) (List.zip m2 v2)
+      return jList (fun (r : (Rat × Rat) × (Rat × Rat)) =>
+        Json.arr #[jRat (welchTSq r.1.1 r.1.2 n1 r.2.1 r.2.2 n2), jOpt jRat (welchNu r.1.2 n1 r.2.2 n2)]) rows
   | "refmarkers.consecutive" => some do
       let idx ← natList (← field inp "idx")
       return jExcept (fun _ => Json.null) (consecutiveCheck idx)
